@@ -461,6 +461,11 @@ func (e *Engine) constBytes(t term.ID) (string, bool) {
 
 // foldPure evaluates bytes.Equal / bytes.HasPrefix on two constant byte strings.
 func (e *Engine) foldPure(key string, args []term.ID) (term.ID, bool) {
+	// cosmos-sdk: AccAddress(nil).Equals(x) is false for a non-empty x, and
+	// MustAccAddressFromBech32 never returns an empty address (it panics on "")
+	if key == "sdk.AccAddress.Equals" && len(args) == 2 && args[0] == e.nilT && e.T.Op(args[1]) == "call:sdk.MustAccAddressFromBech32" {
+		return e.falseT, true
+	}
 	if (key != "bytes.Equal" && key != "bytes.HasPrefix") || len(args) != 2 {
 		return 0, false
 	}
